@@ -1,3 +1,4 @@
 import Driver.Codec
 import Driver.Bt
 import Driver.Bb
+import Driver.Rd
